@@ -104,9 +104,8 @@ def _gkey(b, d):
 
 
 def _norm_role(ctx, prog):
-    r = [b for b in prog.bodies.values() if b.path.startswith('kinematics_impl::') and b.arg_count == 2 and b.kind == 'Fn' and
-         b.local_ty(1) == '&mut f64' and b.local_ty(2) == 'f64' and b.path.count('::') == 1]
-    ctx.require(len(r) == 1, 'near-normaliser fn(&mut f64, f64) in kinematics_impl')
+    r = [b for b in opw.solver_helpers(prog) if b.arg_count == 2 and b.local_ty(1) == '&mut f64' and b.local_ty(2) == 'f64']
+    ctx.require(len(r) == 1, 'near-normaliser fn(&mut f64, f64) called by the solver')
     ctx.fn(r[0])
     return r[0]
 
@@ -285,7 +284,7 @@ def _comparators(ctx, prog, sorter):
     cls = [c for c in util.closure_bodies(prog, sorter.path)]
     sort_calls = [(bi, t) for bi, t in sorter.calls() if cname(callee_name(t)) == 'slice::sort_by']
     ctx.floor('R04.4 sort_by sites', len(sort_calls), 1)
-    dist = [b for b in prog.bodies.values() if b.path.startswith('kinematics_impl::') and b.kind == 'Fn' and b.arg_count == 2 and b.local_ty(0) == 'f64' and
+    dist = [b for b in opw.solver_helpers(prog) if b.arg_count == 2 and b.local_ty(0) == 'f64' and
             '[f64; 6]' in b.local_ty(1) and '[f64; 6]' in b.local_ty(2)]
     ctx.require(len(dist) == 1, 'joint-space distance helper fn(&[f64;6], &[f64;6]) -> f64')
     dist = dist[0]
